@@ -23,7 +23,10 @@ for n in sorted(os.listdir(root), key=key):
         how = "**missed**"
     other = m.get("caught_by_other_check")
     if other and not caught:
-        how = "missed by %s; caught by %s %s" % (n.split("-")[0], other["check"], other.get("tier", "quick"))
+        if other.get("check"):
+            how = "missed by %s; caught by %s %s" % (n.split("-")[0], other["check"], other.get("tier", "quick"))
+        else:
+            how = "not attacked: outside the property's domain (see meta.json)"
         sigs = other.get("signatures", [])
     if not conf.get("confirmed", True):
         how += " (change not confirmed)"
